@@ -27,7 +27,11 @@ def main():
     for line in sys.stdin:
         req = json.loads(line)
         try:
-            code = compiler.compile_prolog_from_string(req['text'], Ctx)
+            class C2(compiler.CompilerContext):
+                pass
+            if req.get('debug_filename'):
+                C2.debug_filename = True
+            code = compiler.compile_prolog_from_string(req['text'], C2)
             res = hashlib.sha256(code.encode('utf8', 'backslashreplace')).hexdigest()
         except BaseException as e:      # noqa
             res = 'EXC:' + type(e).__name__
